@@ -57,7 +57,7 @@ func violatingTable() []violating {
 }
 
 var msgASCII = []rune("abcXYZ 019_-.:!?()=~/|+%")
-var msgCJK = []rune("必填项请输入正确的值手机号长度一\u4e00\u9fa5谬丯")                  // incl. both ends of U+4E00..U+9FA5
+var msgCJK = []rune("必填项请输入正确的值手机号长度一\u4e00\u9fa5谬丯")                          // incl. both ends of U+4E00..U+9FA5
 var msgOtherScripts = []rune("テストéß한글😀\u4dff\u9fa6\u4000\u9fff\u3400｜İ\u212a") // no character in U+4E00..U+9FA5 (the neighbours just outside included): English label
 
 func genMsg(t *rapid.T) (msg, class string) {
